@@ -294,11 +294,11 @@ KNOWN = {}
 
 def plan(tier, seed):
     tasks = []
-    sets = 12 if tier == "quick" else 200
+    sets = 12 if tier == "quick" else 1200
     for n in range(0, 15):
         tasks.append(("all_n", {"sets": sets, "ns": [n]}))
     tasks.append(("all_n", {"sets": 2 if tier == "quick" else 40, "ns": [0, 1, 9, 10, 11, 14], "with_tail": True}))
     tasks.append(("tails", {}))
     if tier != "quick":
-        tasks.append(("all_n", {"sets": 20, "ns": [15, 20, 37, 100]}))
+        tasks.append(("all_n", {"sets": 60, "ns": [15, 20, 21, 22, 37, 100, 250]}))
     return tasks
